@@ -20,6 +20,7 @@ from harness import values as V
 from harness.core import cbool, clist, cnat, copt, cz, err_name
 
 PID = "C08"
+TRANSLATE = ["EqTyping.v"]     # translator tie: coq/gen_proofs/EqTyping.v is re-proved against definitions regenerated from /repo
 PRELUDE = ("From Coq Require Import List ZArith.\nImport ListNotations.\n"
            "From Serif Require Import Base.PyVal Base.StErr Spec.PySlice Model.SetItem Corr.C08.")
 FAILING = "C08.failing"
